@@ -205,15 +205,15 @@ fn configs() -> (u64, Vec<J>, Option<(Fail, J)>) {
             t.bad("S-config", "FrozenCounterConfig.deadband", format!("frozen counter dead-band {db} not carried over"));
         }
     }
-    for db in [0.0f64, 0.5, 1e300, f64::MAX] {
+    for db in [0.0f64, -0.0, 0.5, 1e300, f64::MAX, -1.0, -0.5, f64::MIN, f64::INFINITY, f64::NEG_INFINITY, f64::NAN, 5e-324] {
         let c: ffi::AnalogInputConfig = ffi::AnalogInputConfigFields { static_variation: ffi::StaticAnalogInputVariation::Group30Var1, event_variation: ffi::EventAnalogInputVariation::Group32Var1, deadband: db }.into();
         t.n += 1;
-        if AnalogInputConfig::from(c).deadband != db {
+        if AnalogInputConfig::from(c).deadband.to_bits() != db.to_bits() {
             t.bad("S-config", "AnalogInputConfig.deadband", format!("analog dead-band {db} not carried over"));
         }
         let c: ffi::AnalogOutputStatusConfig = ffi::AnalogOutputStatusConfigFields { static_variation: ffi::StaticAnalogOutputStatusVariation::Group40Var1, event_variation: ffi::EventAnalogOutputStatusVariation::Group42Var1, deadband: db }.into();
         t.n += 1;
-        if AnalogOutputStatusConfig::from(c).deadband != db {
+        if AnalogOutputStatusConfig::from(c).deadband.to_bits() != db.to_bits() {
             t.bad("S-config", "AnalogOutputStatusConfig.deadband", format!("analog output status dead-band {db} not carried over"));
         }
     }
